@@ -2202,6 +2202,7 @@ class EdgeQLSourceGenerator(codegen.SourceGenerator):
 
     def visit_CreateIndexMatch(self, node: qlast.CreateIndexMatch) -> None:
         def after_name() -> None:
+            self.write(' ')
             self.visit(node.valid_type)
             self._write_keywords(' using ')
             self.visit(node.name)
@@ -2213,6 +2214,7 @@ class EdgeQLSourceGenerator(codegen.SourceGenerator):
 
     def visit_DropIndexMatch(self, node: qlast.DropIndexMatch) -> None:
         def after_name() -> None:
+            self.write(' ')
             self.visit(node.valid_type)
             self._write_keywords(' using ')
             self.visit(node.name)
@@ -2450,7 +2452,7 @@ class EdgeQLSourceGenerator(codegen.SourceGenerator):
 
     def visit_AlterCast(self, node: qlast.AlterCast) -> None:
         def after_name() -> None:
-            self._write_keywords('FROM ')
+            self._write_keywords(' FROM ')
             self.visit(node.from_type)
             self._write_keywords(' TO ')
             self.visit(node.to_type)
@@ -2463,7 +2465,7 @@ class EdgeQLSourceGenerator(codegen.SourceGenerator):
 
     def visit_DropCast(self, node: qlast.DropCast) -> None:
         def after_name() -> None:
-            self._write_keywords('FROM ')
+            self._write_keywords(' FROM ')
             self.visit(node.from_type)
             self._write_keywords(' TO ')
             self.visit(node.to_type)
